@@ -145,8 +145,15 @@ def lib():
 
 
 def observe_tree(L, tree):
-    return ('tree', L.ReprWalker().walk(tree, pos=True),
-            H.digest(H.deep_fp(tree)))
+    # a damaged result (None, a tree ReprWalker cannot render) is an
+    # observation like any other - never a reason for the harness to fail
+    if tree is None:
+        return ('returned-None', '', '')
+    try:
+        return ('tree', L.ReprWalker().walk(tree, pos=True),
+                H.digest(H.deep_fp(tree)))
+    except Exception as e:
+        return ('unrenderable-tree', type(e).__name__, repr(e)[:80])
 
 
 def observe_exc(e):
